@@ -278,10 +278,12 @@ def atie_part(ctx):
     s = Stream(ctx, "ostype", "ostype")
     if not s.ok:
         return
-    lin = [c for c in s.cases if c.split()[1] == "linux"]
+    lin = [c for c in s.cases if c.split()[1] == "linux" and c.split()[0] == "memfs"]
     ncalls = sum(len(o.split(" | ")) for o in s.observed)
-    s.account(ctx, {"linux_typed_histories": len(lin), "windows_typed_histories": len(s.cases) - len(lin)})
-    report_model_mismatches(ctx, s, "MemFS built with -tags avfs_setostype differs from its Coq model on %d generated histories (both OS types, volume calls)")
+    s.account(ctx, {"memfs_linux_typed_histories": len(lin),
+                    "memfs_windows_typed_histories": len([c for c in s.cases if c.startswith("memfs windows")]),
+                    "orefafs_histories": len([c for c in s.cases if c.startswith("orefafs")])})
+    report_model_mismatches(ctx, s, "MemFS / OrefaFS built with -tags avfs_setostype differ from their Coq models on %d generated histories (both OS types, volume calls)")
     if any(o.startswith("NOTYPE") for o in s.observed):
         ctx.violation("ostype", "MemFS built with -tags %s does not take the requested OS type" % TAG,
                       {"c17": desc("ostype", "ostype", TAG), "case": s.cases[0], "observed": s.observed[0]})
@@ -368,16 +370,18 @@ def pair_part(ctx):
     s = Stream(ctx, "ostypepair", "ostypepair")
     if not s.ok:
         return
+    # an OrefaFS that hangs is not explored further by the harness: those lines are not compared
+    s.mism = [x for x in s.mism if x[3] != "SKIPPED"]
     s.account(ctx)
-    report_model_mismatches(ctx, s, "MemFS differs from its Coq model on %d portable histories (exact and normalised snapshots)")
-    pm = pairwise(ctx, "memfs", s.cases, s.observed)
-    # the model's own pairwise agreement (the statement of C17_iso evaluated on the generated histories)
-    mm = pairwise_model(s.cases, s.model)
-    base = os.path.join(ctx.dir, "ostypepair")
-    oc, oo = open(base + ".orefa.cases").read().splitlines(), open(base + ".orefa.observed").read().splitlines()
-    po = pairwise(ctx, "orefafs", oc, oo)
-    ctx.coverage["streams"]["ostypepair"].update({"pairwise_memfs": pm, "pairwise_orefafs": po, "pairwise_model_disagreements": mm})
-    ctx.coverage["evaluations"] += po["calls_compared"]
+    report_model_mismatches(ctx, s, "MemFS / OrefaFS differ from their Coq models on %d portable histories (exact and normalised snapshots)")
+    res = {}
+    for fs in ("memfs", "orefafs"):
+        idx = [i for i, c in enumerate(s.cases) if c.startswith(fs + " ")]
+        cs, ob, mo = [s.cases[i] for i in idx], [s.observed[i] for i in idx], [s.model[i] for i in idx]
+        res["pairwise_" + fs] = pairwise(ctx, fs, cs, ob)
+        # the models' own pairwise agreement (the statement of C17_iso evaluated on the generated histories)
+        res["pairwise_model_disagreements_" + fs] = pairwise_model(cs, mo)
+    ctx.coverage["streams"]["ostypepair"].update(res)
 
 
 def pairwise_model(cases, model):
